@@ -436,7 +436,7 @@ def body(chk, db, cfgname):
         if len(acc) != 1 or len(comp) != 1:
             raise AnalysisBroken("ComputeAndClearWrap::run: expected one compute() and one accumulation")
         A = acc[0]
-        k = ctx.key(A, inline=False)
+        k = ctx.key(A)
         Ls = enclosing_loops(f, A)
         shp = loop_shape(f, ctx, Ls[0]) if Ls else None
         fq = ("un", "*", fld(CW + "freqs_"))
